@@ -351,20 +351,33 @@ class SimE(Simulator):
                                   never=["simulate"], p=0.3)
         method = gen.gen_method(rng, feats, max_lines=rng.randint(3, 16), time_scale=1.0)
         ops: list[list] = [["user", "Start"]]
+        if rng.random() < 0.12:
+            # a Watch in the body of an Alarm is cancelled while it waits; the Alarm body completes and the Alarm re-arms
+            # without activating again; then the Watch's condition comes true
+            u = rng.randint(100, 999)
+            wait = rng.choice([0.3, 0.5, 0.8])
+            method = [["S0", "Alarm: PV1 > 5 L/h"], ["S1", "    Watch: LVL > 60 %"], ["S2", f"        Mark: wb{u}"],
+                      ["S3", f"    Wait: {wait}s"], ["S4", f"    Mark: ab{u}"], ["S5", "Wait: 4s"], ["S6", f"Mark: end{u}"]]
+            ops += [["pv", "PV1", 0.0], ["pv", "LVL", 10.0], ["tick", rng.choice([1, 2]), 0.1], ["pv", "PV1", 10.0],
+                    ["tick", rng.choice([2, 3]), 0.1], ["pv", "PV1", 0.0], ["tick", 1, 0.1],
+                    [rng.choice(["cancel", "cancel", "cancel", "force"]), 0, "named:Watch: LVL > 60 %"],
+                    ["tick", rng.choice([8, 12]), 0.1], ["pv", "LVL", 90.0], ["tick", 8, 0.1], ["tick", 25, 0.1],
+                    ["settle", 200], ["end_stop"]]
+            return {"cfg": {"recovery": False, "runlog_every": 3, "wellformed": True}, "method": method, "ops": ops}
         if rng.random() < 0.2:
             # two injected snippets alive at the same time: a Watch that waits for its condition, then a second snippet, then
             # a cancel (or force) of the first snippet's Watch, then the condition comes true
             u = rng.randint(100, 999)
             ops.append(["pv", "LVL", 10.0])
             ops.append(["tick", rng.choice([1, 2, 4]), 0.1])
-            ops.append(["inject", rng.choice([f"Mark: ia{u}\nWatch: LVL > 77\n    Mark: iwb{u}",
-                                              f"Watch: LVL > 77\n    Mark: iwb{u}",
-                                              f"Spin\nWatch: LVL > 77\n    Mark: iwb{u}"])])
+            ops.append(["inject", rng.choice([f"Mark: ia{u}\nWatch: LVL > 77 %\n    Mark: iwb{u}",
+                                              f"Watch: LVL > 77 %\n    Mark: iwb{u}",
+                                              f"Spin\nWatch: LVL > 77 %\n    Mark: iwb{u}"])])
             ops.append(["tick", rng.choice([1, 2, 3]), 0.1])
             ops.append(["inject", rng.choice(["LongC: 6", "Spin", f"Mark: ib{u}\nLongC: 6", f"Mark: ib{u}", "Churn",
-                                              f"Watch: PV2 > 900\n    Mark: ic{u}"])])
+                                              f"Watch: PV2 > 900 degC\n    Mark: ic{u}"])])
             ops.append(["tick", rng.choice([1, 2]), 0.1])
-            ops.append([rng.choice(["cancel", "cancel", "force"]), 0, "named:Watch: LVL > 77"])
+            ops.append([rng.choice(["cancel", "cancel", "force"]), 0, "named:Watch: LVL > 77 %"])
             ops.append(["tick", rng.choice([2, 4]), 0.1])
             ops.append(["pv", "LVL", 90.0])
             ops.append(["tick", 6, 0.1])
